@@ -151,11 +151,16 @@ class LocalShrinker:
             self._verdict[case] = v
         return v
 
+    WORK = [0]  # candidate evaluations spent on minimising in this process
+    WORK_CAP = 60000  # beyond this, failing cases are reported unreduced (mass failures; the runner caps as well)
+
     def minimise(self, clause, case):
         key = (clause, case)
         got = self._min.get(key)
         if got is not None:
             return got
+        if self.WORK[0] > self.WORK_CAP:
+            return case
         path = [key]
         cur = case
         steps = 0
@@ -168,6 +173,7 @@ class LocalShrinker:
                 break
             for cand in self.check.shrink(cur):
                 steps += 1
+                self.WORK[0] += 1
                 if steps > self.max_steps:
                     break
                 if clause in self.failing(cand):
